@@ -76,24 +76,23 @@ def _run_z3(smt2_path: str, tactic: str, timeout: float) -> Verdict:
     return Verdict(d["status"], f"z3-5.1:{tactic}", d["seconds"], model, d.get("detail", ""))
 
 
-def _run_cvc5(path: str, timeout: float) -> Verdict:
+def _run_cvc5(path: str, timeout: float, mode: str = "cov") -> Verdict:
     t0 = time.time()
+    tag = f"cvc5-1.4:{mode}"
     try:
         out = subprocess.run(
-            ["/usr/bin/cvc5", "--nl-cov", f"--tlimit={int(timeout * 1000)}", path],
-            capture_output=True,
-            text=True,
-            timeout=timeout + 5,
-            check=False,
+            [sys.executable, "-m", "vlib.cvc5worker", path, mode],
+            capture_output=True, text=True, timeout=timeout, check=False, cwd=_ROOT,
         )
-        ans = out.stdout.strip().splitlines()[0] if out.stdout.strip() else ""
-        if ans in {"unsat", "sat", "unknown"}:
-            return Verdict(ans, "cvc5-1.0.3:nl-cov", time.time() - t0, detail=out.stderr[:200])
-        return Verdict("unknown", "cvc5-1.0.3", time.time() - t0, detail=(out.stdout + out.stderr)[:300])
     except subprocess.TimeoutExpired:
-        return Verdict("timeout", "cvc5-1.0.3", time.time() - t0)
-    finally:
-        pass
+        return Verdict("timeout", tag, time.time() - t0)
+    line = out.stdout.strip().splitlines()[-1] if out.stdout.strip() else ""
+    try:
+        d = json.loads(line)
+    except Exception:  # noqa: BLE001
+        return Verdict("error", tag, time.time() - t0, detail=(out.stderr or out.stdout)[-300:])
+    model = {k: _decode(v) for k, v in d["model"].items()}
+    return Verdict(d["status"], tag, d["seconds"], model, d.get("detail", ""))
 
 
 def solve(
@@ -138,7 +137,6 @@ def _solve_file(path: str, timeout: float, tactics: tuple[str, ...], use_cvc5: b
             v.detail = "; ".join(f"{a.solver}={a.status}" for a in attempts)
             return v
         if v.status == "sat":
-            # cvc5 CLI gives no model here; report as sat without a model
             v.detail = "; ".join(f"{a.solver}={a.status}" for a in attempts)
             return v
     worst = "timeout" if any(a.status == "timeout" for a in attempts) else "unknown"
